@@ -1,6 +1,7 @@
 // Copyright 2022 Oxide Computer Company
 
 use schemars::schema::SchemaObject;
+use schemars::visit::{visit_schema_object, Visitor};
 
 use crate::{type_entry::TypeEntry, TypeSpaceImpl};
 
@@ -11,23 +12,32 @@ pub(crate) struct SchemaCache {
     schemas: Vec<(SchemaObject, TypeEntry)>,
 }
 
+/// Remove annotations (title, description, default, ...) from a schema and
+/// from all of its subschemas so that schemas can be compared for equality
+/// modulo annotations.
+struct StripMetadata;
+
+impl Visitor for StripMetadata {
+    fn visit_schema_object(&mut self, schema: &mut SchemaObject) {
+        schema.metadata = None;
+        visit_schema_object(self, schema);
+    }
+}
+
+fn without_metadata(schema: &SchemaObject) -> SchemaObject {
+    let mut schema = schema.clone();
+    StripMetadata.visit_schema_object(&mut schema);
+    schema
+}
+
 impl SchemaCache {
     pub fn insert(&mut self, schema: &SchemaObject, type_name: &String, impls: &[TypeSpaceImpl]) {
         let type_entry = TypeEntry::new_native(type_name, impls);
-        self.schemas.push((
-            SchemaObject {
-                metadata: None,
-                ..schema.clone()
-            },
-            type_entry,
-        ));
+        self.schemas.push((without_metadata(schema), type_entry));
     }
 
     pub fn lookup(&self, search_schema: &SchemaObject) -> Option<TypeEntry> {
-        let search_schema = SchemaObject {
-            metadata: None,
-            ..search_schema.clone()
-        };
+        let search_schema = without_metadata(search_schema);
         self.schemas
             .iter()
             .filter(|(schema, _)| &search_schema == schema)
